@@ -59,6 +59,18 @@ ASSUMPTIONS = ['floating-point rounding is outside the model (exact reals in the
                'generated problems (strongly convex quadratic f only; L from the operator zoo incl. '
                'gradient / weighted; g incl. indicators, KL, Huber, group-L1); l != None is modelled, '
                'tied, and has the fixed-point theorems douglas_rachford_pd_l_fixed_point(_converse_partial)',
+               'convergence TESTS (optimality, optimality_multi) never alarm on slow convergence: budget ladder '
+               'N, 4N(, 16N); a solver not at the tolerance on the top rung is reported only when its error was '
+               'not even halved over the ladder (operators with sigma_max/sigma_min+ <= 32) resp. INCREASED '
+               '(ill-conditioned), `no_progress`; a non-converged pdhg reference means the others are not judged; '
+               'always reported: raise, non-finite result, drift away from the own KKT pair (> 64 residuals)',
+               'round 5: smooth solvers (newtons_method, bfgs_method, broydens_method, '
+               'conjugate_gradient_nonlinear, steepest_descent) with BacktrackingLineSearch: objective '
+               'non-increasing by construction of the line search (oracle only, no model of these loops); their '
+               'search directions are checked against the textbook dense updates with a constant step '
+               '(ref_quasi_newton); adam / gauss_newton / LineSearchFromIterNum against the documented iteration; '
+               'proximal_gradient_sufficient_decrease is CONDITIONAL on the sub-gradient inequality and the '
+               'descent lemma (hypotheses), checked on the real code with Lg = |A|^2 from numpy.linalg.svd',
                'round 4: landweber_converges_linearly / cg_exact_after_dim / power_method_*_estimate_mono '
                'are theorems in exact arithmetic about LandweberP.step, CgP.step, PowerP/PowerSelfP.step; '
                'on the real code (doubles) the contraction factor is checked with relative slack 1e-9 and an '
@@ -548,7 +560,19 @@ def family_power(ctx, r, exact, n, opaque=False):
     ctx.hit('model/power/' + ('self' if self_adj else 'normal'))
     if st != 'ok':
         ctx.hit('model/power/raise')
-        if not nil:
+        # `reached x=0` is the documented outcome when the iteration really reaches 0 (start vector in the
+        # kernel of A resp. of a power of A): recomputed with numpy from the matrices; only a raise that this
+        # does not explain is an alarm
+        v, explained = x0 / np.linalg.norm(x0), False
+        for _ in range(ncalls):
+            v = M.dot(v) if self_adj else Mt.dot(M.dot(v))
+            if not np.any(v):
+                explained = 'reached' in str(st)
+                break
+            v = v / np.linalg.norm(v)
+        if explained and not nil:
+            ctx.hit('model/power/raise(start in the kernel of a power of A)')
+        if not nil and not explained:
             viol(ctx, 'power_method_opnorm raises opkind=' + kind, st, p, maxiter=maxiter, M=M.tolist())
     # x.norm() is the weighted norm: fold the constant cell weight into the wire data
     if kind in ('matrix', 'selfadjoint'):
@@ -1000,17 +1024,53 @@ def strongly_convex_problem(r):
     return dict(A=A, L=L, a=a, f=f, fk=fk, fmod=fmod, g=g, gk=gk, d=d, m=m, kind=kind, finite=finite)
 
 
+KAPPA_TREND_ONLY = 32.0     # sigma_max / smallest non-zero singular value above which only the trend is judged
+
+
+def op_condition(A):
+    """sigma_max / smallest NON-ZERO singular value of the matrix of L (zero singular values do not slow
+    the iteration down: f is strongly convex on the kernel)"""
+    sv = np.linalg.svd(np.asarray(A, dtype=float), compute_uv=False)
+    nz = sv[sv > 1e-12 * max(1.0, sv[0])] if len(sv) else sv
+    return float(sv[0] / nz[-1]) if len(nz) else 1.0
+
+
+def no_progress(first, top, ill):
+    """The SOUND part of the convergence test.  `first` / `top`: the error measure after N and after the
+    top budget (4N or 16N iterations), NOT converged to the tolerance at the top.  Slow convergence is not a
+    defect: convergence theory gives no rate for the last iterate on these problems (non-smooth g, no
+    strong convexity of g*), and on ill-conditioned operators linear rates are arbitrarily close to 1.
+    What contradicts the property ("drives the iterate TOWARDS a point satisfying the optimality
+    conditions") is an error that does not shrink over a budget that is a multiple of the first one:
+    bounded conditioning: the error is not even halved by >= 4x the iterations (every known worst-case
+    bound, O(1/sqrt k) for the fixed-point residual included, gives at least that);
+    ill-conditioned operator: the error has INCREASED."""
+    if not np.isfinite(top):
+        return True
+    if ill:
+        return top > first * (1 + 1e-3) + 1e-13
+    return top > 0.5 * first + 1e-13
+
+
 def family_optimality(ctx, r, exact, n, opaque=False):
-    """Short budget first; a failure is only reported if it persists with 5x the iterations
-    (so that slow but correct convergence is not an alarm, and the quick tier stays quick)."""
+    """Budget ladder N, 4N(, 16N in the quick tier, where N is small): a solver that reaches the
+    tolerance on any rung passes; one that has not reached it on the top rung is reported ONLY if it made
+    no progress (`no_progress`), never for converging slowly."""
     base = 300 if ctx.quick else 1500
     state = r.getstate()
-    sub = core.Ctx(ctx.pid, ctx.tier, ctx.seed)
-    _optimality(sub, r, base)
-    if sub.violations:
+    rungs = []
+    sub = None
+    for mult in ((1, 4, 16) if ctx.quick else (1, 4)):
         r.setstate(state)
         sub = core.Ctx(ctx.pid, ctx.tier, ctx.seed)
-        _optimality(sub, r, 5 * base)
+        m = _optimality_measure(sub, r, base * mult)
+        rungs.append(m)
+        if m is None or not _optimality_judge(None, rungs, final=False):
+            break
+    if rungs[-1] is not None:
+        _optimality_judge(sub, rungs, final=True)
+        if len(rungs) > 1:
+            ctx.hit('test/optimality/escalated x{}'.format(4 ** (len(rungs) - 1)))
     ctx.violations.extend(sub.violations)
     for k, v in sub.extra.items():
         ctx.extra.setdefault(k, []).extend(v)
@@ -1022,7 +1082,88 @@ def family_optimality(ctx, r, exact, n, opaque=False):
     return []
 
 
-def _optimality(ctx, r, niter):
+def _optimality_judge(ctx, rungs, final):
+    """final=False: is anything still not converged on the latest rung (-> climb)?  final=True: report.
+    All rungs are measured against the reference (x, y) of pdhg on the TOP rung."""
+    top = rungs[-1]
+    q, p, A, niter = top['q'], top['p'], top['A'], top['niter']
+    tol = 1e-3 if niter < 1000 else 1e-5
+    ill = top['kappa'] > KAPPA_TREND_ONLY
+    k0 = top['k0']
+    pending = False
+    # pdhg itself: its own KKT residual with its own dual variable
+    k_first, k_top = rungs[0]['k1'], top['k1']
+    pd_ok = k_top <= tol * 0.1 * (1 + k0)
+    if not pd_ok:
+        pending = True
+        if final and no_progress(k_first, k_top, ill):
+            viol(ctx, 'pdhg KKT residual does not decay opkind={} f={} g={}'.format(q['kind'], q['fk'], q['gk']),
+                 'KKT residual {} initially, {} after {} iterations, {} after {} iterations with '
+                 'tau=sigma=0.95/|L| (sigma_max/sigma_min+ = {:.3g}): {}'.format(
+                     k0, k_first, rungs[0]['niter'], k_top, niter, top['kappa'],
+                     'increased' if ill else 'not halved'), p, A=A.tolist(), niter=niter)
+        elif final:
+            ctx.hit('test/optimality/slow-but-progressing(not an alarm)')
+    if final and not pd_ok:
+        # no converged certificate: the other solvers cannot be judged against it
+        ctx.hit('test/optimality/reference-not-converged(others not judged)')
+        return pending
+    xs, y = top['results'].get('pdhg'), top['y']
+    kkt = top['kkt']
+
+    def err(m, k):
+        xk = m['results'].get(k)
+        if xk is None:
+            return float('inf')
+        return max(kkt(xk, y) / (1 + k0), float((xk - xs).norm()) / (1 + float(xs.norm())))
+    for k in sorted(top['results']):
+        if k == 'pdhg':
+            continue
+        # accelerated PDHG converges sublinearly (|x_N - x*| = O(1/N), [CP2011a] Thm 2): its
+        # threshold follows that rate
+        tk = max(tol, 10.0 / niter) if 'gamma' in k else tol
+        e_top = err(top, k)
+        if e_top <= tk:
+            continue
+        pending = True
+        if final:
+            e_first = err(rungs[0], k)
+            if no_progress(e_first, e_top, ill):
+                viol(ctx, '{} does not reach a point satisfying the optimality conditions opkind={} f={} '
+                     'g={}'.format(k, q['kind'], q['fk'], q['gk']),
+                     'relative error (sub-gradient inclusion residual with the dual certificate of pdhg, '
+                     'distance to the pdhg solution) {} after {} iterations, {} after {} iterations '
+                     '(pdhg itself: KKT residual {}; sigma_max/sigma_min+ = {:.3g}): {}'.format(
+                         e_first, rungs[0]['niter'], e_top, niter, k_top, top['kappa'],
+                         'increased' if ill else 'not halved'), p, A=A.tolist(), niter=niter)
+            else:
+                ctx.hit('test/optimality/slow-but-progressing(not an alarm)')
+    if q['finite']:
+        def gaps(m, best):
+            return {k: float(top['obj'](v)) - best for k, v in m['results'].items()}
+        best = min(float(top['obj'](v)) for v in top['results'].values())
+        g_top, g_first = gaps(top, best), gaps(rungs[0], best)
+        for k, gap in sorted(g_top.items()):
+            tk = (max(tol, 10.0 / niter) if 'gamma' in k else tol) * (1 + abs(best))
+            if gap <= tk:
+                continue
+            pending = True
+            if final:
+                if no_progress(g_first.get(k, float('inf')), gap, ill):
+                    viol(ctx, '{} does not reach the minimal objective opkind={} f={} g={}'.format(
+                        k, q['kind'], q['fk'], q['gk']),
+                        'objective gap {} after {} iterations, {} after {} iterations (best of all solvers '
+                        '{}): {}'.format(g_first.get(k), rungs[0]['niter'], gap, niter, best,
+                                         'increased' if ill else 'not halved'), p, A=A.tolist(),
+                        niter=niter)
+                else:
+                    ctx.hit('test/optimality/slow-but-progressing(not an alarm)')
+    return pending
+
+
+def _optimality_measure(ctx, r, niter):
+    """one rung: run everything with `niter` iterations; report only what is a defect at ANY speed of
+    convergence (raise, non-finite result, drift away from the own KKT pair); returns the measurements"""
     import odl
     S = odl.solvers
     q = strongly_convex_problem(r)
@@ -1030,7 +1171,6 @@ def _optimality(ctx, r, niter):
     if ctx.quick:
         r.shuffle(others)
         others = others[:2]
-    tol = 1e-3 if niter < 1000 else 1e-5
     L, f, g, A = q['L'], q['f'], q['g'], q['A']
     nrm = true_opnorm(L, A)
     x0 = sl.dy_vec(r, q['d'], 16, 8)
@@ -1059,27 +1199,25 @@ def _optimality(ctx, r, niter):
     xr, y = x.copy(), L.range.zero()
     st, _ = guarded(S.pdhg, x, f, g, L, niter, tau=tau, sigma=sigma, x_relax=xr, y=y)
     k0 = kkt(unflat(L.domain, x0), L.range.zero())
-    if st == 'ok' and sl.finite(flat(x)):
-        results['pdhg'] = x
-        k1 = kkt(x, y)
-        ctx.extra.setdefault('kkt_residual_decay(test)', []).append(
-            [round(k0, 6), float('{:.3g}'.format(k1))])
-        if not k1 <= tol * 0.1 * (1 + k0):
-            viol(ctx, 'pdhg KKT residual does not decay opkind={} f={} g={}'.format(
-                q['kind'], q['fk'], q['gk']),
-                'KKT residual {} -> {} after {} iterations with tau=sigma=0.95/|L|'.format(
-                    k0, k1, niter), p, A=A.tolist(), niter=niter)
-        # "a solution is a fixed point": restart AT the computed primal-dual pair
-        x2, xr2, y2 = x.copy(), x.copy(), y.copy()
-        st2, _ = guarded(S.pdhg, x2, f, g, L, 5, tau=tau, sigma=sigma, x_relax=xr2, y=y2)
-        drift = float((x2 - x).norm() + (y2 - y).norm()) if st2 == 'ok' else float('inf')
-        if not drift <= 20 * k1 + 1e-12 * (1 + float(x.norm())):
-            viol(ctx, 'pdhg started at a KKT pair moves away opkind={} g={}'.format(q['kind'], q['gk']),
-                 'KKT residual {}: drift {} in 5 iterations'.format(k1, drift), p, A=A.tolist())
-    else:
+    ctx.extra.setdefault('_sig', []).append((q['kind'], q['fk'], q['gk']))
+    if not (st == 'ok' and sl.finite(flat(x))):
         viol(ctx, 'pdhg fails on a strongly convex problem opkind={} f={} g={}'.format(
             q['kind'], q['fk'], q['gk']), st, p, A=A.tolist())
-        return
+        return None
+    results['pdhg'] = x
+    k1 = kkt(x, y)
+    ctx.extra.setdefault('kkt_residual_decay(test)', []).append(
+        [round(k0, 6), float('{:.3g}'.format(k1))])
+    # "a solution is a fixed point": restart AT the computed primal-dual pair.  k1 is the length of one
+    # fixed-point step at (x, y); the iteration is non-expansive in the metric M = [[1/tau, -L*],[-L, 1/sigma]]
+    # whose condition number is (1 + 0.95)/(1 - 0.95) = 39, so 5 steps move by at most 5 sqrt(39) k1 < 32 k1
+    # (x-step evaluated at the NEW y: another factor <= 2): sound at every speed of convergence.
+    x2, xr2, y2 = x.copy(), x.copy(), y.copy()
+    st2, _ = guarded(S.pdhg, x2, f, g, L, 5, tau=tau, sigma=sigma, x_relax=xr2, y=y2)
+    drift = float((x2 - x).norm() + (y2 - y).norm()) if st2 == 'ok' else float('inf')
+    if not drift <= 64 * k1 + 1e-12 * (1 + float(x.norm())):
+        viol(ctx, 'pdhg started at a KKT pair moves away opkind={} g={}'.format(q['kind'], q['gk']),
+             'KKT residual {}: drift {} in 5 iterations'.format(k1, drift), p, A=A.tolist())
     # DEFAULT step sizes (pdhg_stepsize inside); HISTORY stratum: the same operator object has been
     # asked for rough norm estimates before
     if r.random() < 0.5:
@@ -1105,36 +1243,13 @@ def _optimality(ctx, r, niter):
         # 2 min(1/tau,1/sigma) * (1/fmod) * sqrt(1 - tau sigma |L|^2) > 1
         t = min(0.8 / q['fmod'], 0.5 / nrm)
         run('forward_backward_pd(h=f)', S.forward_backward_pd, zero, [g], [L], f, t, [t], niter * 2)
-    # every solver's x with the INDEPENDENT dual certificate y of pdhg: (x_s, y) must satisfy the
-    # sub-gradient inclusions (x* is unique, any dual solution certifies it), and x_s = x_pdhg
-    xs = results['pdhg']
-    for k, xk in sorted(results.items()):
-        if k == 'pdhg':
-            continue
-        kk = kkt(xk, y)
-        dist = float((xk - xs).norm())
-        # accelerated PDHG converges sublinearly (|x_N - x*| = O(1/N), [CP2011a] Thm 2): its
-        # threshold follows that rate; the others converge linearly on these problems
-        tk = max(tol, 10.0 / niter) if 'gamma' in k else tol
-        if not (kk <= tk * (1 + k0) and dist <= tk * (1 + float(xs.norm()))):
-            viol(ctx, '{} does not reach a point satisfying the optimality conditions opkind={} f={} '
-                 'g={}'.format(k, q['kind'], q['fk'], q['gk']),
-                 'after {} iterations: sub-gradient inclusion residual {} with the dual certificate of '
-                 'pdhg (pdhg itself: {}), distance to the pdhg solution {}'.format(
-                     niter, kk, kkt(xs, y), dist), p, A=A.tolist(), niter=niter)
-    if q['finite']:
-        vals = {k: float(f(v) + g(L(v))) for k, v in results.items()}
-        best = min(vals.values())
-        for k, v in sorted(vals.items()):
-            if not v <= best + (max(tol, 10.0 / niter) if 'gamma' in k else tol) * (1 + abs(best)):
-                viol(ctx, '{} does not reach the minimal objective opkind={} f={} g={}'.format(
-                    k, q['kind'], q['fk'], q['gk']),
-                    'objective {} after {} iterations, other solvers reach {} ({})'.format(
-                        v, niter, best, {a_: round(b_, 8) for a_, b_ in vals.items()}), p,
-                    A=A.tolist(), niter=niter)
-    ctx.extra.setdefault('_sig', []).append((q['kind'], q['fk'], q['gk']))
     ctx.hit('test/optimality/g=' + q['gk'])
     ctx.hit('test/optimality/op=' + q['kind'])
+    # conditioning in the inner products of the spaces (cell-volume weights folded in)
+    wd, wr = gram_diag(L.domain), gram_diag(L.range)
+    kappa = op_condition(np.sqrt(wr)[:, None] * A / np.sqrt(wd)[None, :])
+    return dict(q=q, p=p, A=A, niter=niter, k0=k0, k1=k1, y=y, results=results, kkt=kkt, kappa=kappa,
+                obj=lambda v: f(v) + g(L(v)))
 
 
 def family_fixed_point(ctx, r, exact, n, opaque=False):
@@ -1220,7 +1335,8 @@ def family_optimality_multi(ctx, r, exact, n, opaque=False):
         return float(f(xe) + sum(g(Li(xe)) for g, Li in zip(gs, Ls)))
     res = {}
     zero = S.ZeroFunctional(dom)
-    for attempt in (1, 5):
+    hist = []
+    for attempt in ((1, 4, 16) if ctx.quick else (1, 4)):
         res = {}
         x = unflat(dom, x0)
         tau_dr = 1.0 / sum(nrm)
@@ -1239,6 +1355,7 @@ def family_optimality_multi(ctx, r, exact, n, opaque=False):
         vals = {k: obj(v) for k, (st, v) in res.items() if st == 'ok'}
         best = min(vals.values()) if vals else float('nan')
         bad = [k for k, v in vals.items() if not v <= best + tol * (1 + abs(best))]
+        hist.append(dict(vals))
         if not bad:
             break
     for k, (st, v) in sorted(res.items()):
@@ -1246,11 +1363,20 @@ def family_optimality_multi(ctx, r, exact, n, opaque=False):
             viol(ctx, '{} raises on a problem with {} operators ranges={} ({})'.format(
                 k, m, p['opkind'], 'equal' if equal else 'different'), st, p,
                 mats=[M.tolist() for M in mats])
+    # not converged on the top rung: an alarm only without PROGRESS (see `no_progress`), never for
+    # slow convergence; gaps of all rungs against the best value of the top rung
+    ill = max(op_condition(M) for M in mats) > KAPPA_TREND_ONLY
     for k in sorted(bad):
+        g_first = hist[0].get(k, float('inf')) - best
+        if not no_progress(g_first, vals[k] - best, ill):
+            ctx.hit('test/optimality/slow-but-progressing(not an alarm)')
+            continue
         viol(ctx, '{} does not reach the minimal objective with {} operators ranges={} g={}'.format(
             k, m, p['opkind'], p['gk']),
-            'objective {} after {} iterations, the other solvers reach {} ({})'.format(
-                vals[k], niter * attempt, best, {a_: round(b_, 8) for a_, b_ in vals.items()}), p,
+            'objective gap {} after {} iterations, {} after {} iterations ({}), the other solvers reach {} '
+            '({})'.format(g_first, niter, vals[k] - best, niter * attempt,
+                          'increased' if ill else 'not halved', best,
+                          {a_: round(b_, 8) for a_, b_ in vals.items()}), p,
             mats=[M.tolist() for M in mats])
     ctx.case(('test', 'optimality_multi', p['opkind'], p['gk'], equal))
     ctx.hit('test/optimality, {} operators, {} ranges'.format(m, 'equal' if equal else 'different'))
@@ -1296,6 +1422,20 @@ def family_proxgrad_descent(ctx, r, exact, n, opaque=False):
         if k is not None:
             viol(ctx, 'proximal_gradient increases the objective f={} gamma*|A|^2<=1'.format(fk),
                  'F(x_{})={} > F(x_{})={}'.format(k + 1, vals[k + 1], k, vals[k]), p, A=A.tolist())
+        # SUFFICIENT DECREASE (C12.proximal_gradient_sufficient_decrease, lam = 1, Lg = |A|^2):
+        # F(x+) <= F(x) - (1/gamma - |A|^2/2) |x+ - x|^2 for every callback iterate
+        cdec = 1.0 / gamma - smax(A) ** 2 / 2.0
+        seq = [np.asarray(x0, dtype=float)] + [np.asarray(v, dtype=float) for v in rec.iterates]
+        scale = max([abs(v) for v in vals] + [1e-300])
+        for k in range(len(vals) - 1):
+            step2 = float(np.sum((seq[k + 1] - seq[k]) ** 2))
+            if not vals[k + 1] <= vals[k] - cdec * step2 * (1 - 1e-9) + 1e-12 * scale:
+                viol(ctx, 'proximal_gradient violates the sufficient decrease F(x+) <= F(x) - (1/gamma - '
+                     '|A|^2/2)|x+ - x|^2 f={}'.format(fk),
+                     'F(x_{})={!r}, F(x_{})={!r}, |dx|^2={!r}, 1/gamma - |A|^2/2 = {!r}'.format(
+                         k + 1, vals[k + 1], k, vals[k], step2, cdec), p, A=A.tolist())
+                break
+        ctx.hit('oracle/proxgrad sufficient decrease')
         # (FISTA is checked against its published iteration and its rate bound in `ref_fista` /
         # `fista_rate`; an ISTA-vs-FISTA value comparison after a fixed budget would demand
         # convergence of ISTA within that budget, which the property does not state)
@@ -1547,6 +1687,30 @@ def family_ref_osmlem(ctx, r, exact, n, opaque=False):
                          'g_i / A_i x) subsets={} sensitivities={}'.format(what, p['opkind'], p['fk']),
                          p, rec.iterates, ref, n=n, mats=[M.tolist() for M in mats],
                          data=[b.tolist() for b in data], sens=[s_.tolist() for s_ in sens])
+    if st == 'ok' and m == 1 and form == 'default':
+        # EM theorem: with the default sensitivities A^T 1 (non-negative A, positive data and start) every
+        # MLEM iteration does not decrease the Poisson log-likelihood sum(g log(Ax) - Ax) -- evaluated by
+        # the library's own poisson_log_likelihood and by numpy
+        from odl.solvers.iterative.statistical import poisson_log_likelihood
+        ll, lln = [], []
+        for v in [x0] + rec.iterates:
+            proj = ops[0](unflat(ops[0].domain, v))
+            stl, val = guarded(poisson_log_likelihood, proj, unflat(ops[0].range, data[0]))
+            ll.append(float(val) if stl == 'ok' else float('nan'))
+            lln.append(float(np.sum(data[0] * np.log(mats[0].dot(v) + 1e-8) - mats[0].dot(v))))
+        if any(not abs(a_ - b_) <= 1e-9 * (1 + abs(b_)) for a_, b_ in zip(ll, lln)):
+            viol(ctx, 'poisson_log_likelihood differs from sum(g log(x + 1e-8) - x)',
+                 '{} vs numpy {}'.format(ll, lln), p, n=n, mats=[M.tolist() for M in mats])
+        k = mono_violation([-v for v in lln])
+        if k is not None:
+            viol(ctx, '{} decreases the Poisson log-likelihood (default sensitivities)'.format(what),
+                 'L(x_{})={} < L(x_{})={}'.format(k + 1, lln[k + 1], k, lln[k]), p, n=n,
+                 mats=[M.tolist() for M in mats], data=[b.tolist() for b in data])
+        stn, _ = guarded(poisson_log_likelihood, unflat(ops[0].range, -np.ones(mats[0].shape[0])),
+                         unflat(ops[0].range, data[0]))
+        if 'ValueError' not in str(stn):
+            viol(ctx, 'poisson_log_likelihood accepts a negative intensity', str(stn)[:200], p)
+        ctx.hit('oracle/mlem log-likelihood ascent')
     ctx.case(('reference', what, p['opkind'], p['fk']))
     ctx.hit('reference/' + what)
     return []
@@ -1802,11 +1966,18 @@ EXPECTED_BRANCHES = [
     'oracle/landweber_rate/consistent', 'oracle/landweber_rate/inconsistent',
     'oracle/landweber_rate/omega*c^2 in (1,2)', 'oracle/landweber_rate/omega*c^2 in (0,1]',
     'model/c11-tie/landweber_rate', 'model/power_mono/self', 'model/power_mono/normal',
-    'oracle/power_mono/strictly-increasing',
+    'oracle/power_mono/strictly-increasing', 'oracle/proxgrad sufficient decrease',
+    'oracle/mlem log-likelihood ascent',
 ]
 SLOW = {'optimality': 0.2, 'fixed_point': 0.3, 'optimality_multi': 0.15, 'proxgrad_descent': 0.15, 'f12': 0.05, 'fista_rate': 0.05}
 C11_TIE = ('landweber', 'kaczmarz', 'pdhg', 'admm', 'proxgrad')
 ROUND4_FAMILIES = ('landweber_rate', 'power_mono')
+# round 5: smooth solvers / line-search classes never entered before (tools/harness/c12_smooth.py);
+# appended AFTER the round-4 families so that every older case seed stays what it was
+from harness import c12_smooth  # noqa: E402
+FAMILIES.update(c12_smooth.FAMILIES)
+ROUND4_FAMILIES = ROUND4_FAMILIES + tuple(sorted(c12_smooth.FAMILIES))
+EXPECTED_BRANCHES = EXPECTED_BRANCHES + c12_smooth.EXPECTED_BRANCHES
 
 
 def plan(ctx, deep=False):
